@@ -824,6 +824,8 @@ def def_digest(fn: ast.AST) -> str:
         for n in ast.walk(st):
             if isinstance(n, ast.Name) and n.id == own:
                 n.id = "<self>"
+            elif isinstance(n, ast.Attribute) and n.attr == own:
+                n.attr = "<self>"
             elif isinstance(n, ast.arg):
                 n.annotation = None
             elif isinstance(n, ast.AnnAssign):
@@ -1011,6 +1013,7 @@ def inline_helpers(trees: Dict[str, ast.Module], anchors: Optional[Set[str]] = N
                 for s in n.body:
                     if isinstance(s, _FUNC):
                         method_count[s.name] = method_count.get(s.name, 0) + 1
+    notes += expand_generator_helpers(trees, anchors)
     new_helpers, new_home = _new_helpers(trees, anchors, method_count)
     notes += expand_new_properties(trees, anchors, method_count)
     for mod, tree in trees.items():
@@ -1269,6 +1272,114 @@ def _inline_package_constants_once(trees: Dict[str, ast.Module]) -> int:
                             setattr(parent, fld, c)
                         n_sites += 1
     return n_sites
+
+
+def expand_generator_helpers(trees: Dict[str, ast.Module], anchors: Set[str]) -> List[str]:
+    """`for T in gen(args): BODY` for a generator helper of the library (private, or new to the tree; defined
+    once; not looked up by a rule) whose `yield E` statements all sit in plain for / if nesting, each as the
+    last statement of its block: read as the helper's loops with `T = E; BODY` in place of each yield.
+    BODY must not leave the loop (no break / return / yield; `continue` is fine: the yield is the last
+    statement of the innermost helper loop or the code after it is none)."""
+    base = _baseline_defs()
+    wsn = whole_string_names()
+    count: Dict[str, int] = {}
+    for t in trees.values():
+        for n in ast.walk(t):
+            if isinstance(n, _FUNC + (ast.ClassDef,)):
+                count[n.name] = count.get(n.name, 0) + 1
+    gens: Dict[str, Tuple[str, ast.FunctionDef]] = {}
+    for mod, t in trees.items():
+        for fn in t.body:
+            if not isinstance(fn, ast.FunctionDef) or count.get(fn.name) != 1 or fn.name in wsn:
+                continue
+            if not (_private(fn.name) and fn.name not in anchors or (base and fn.name not in base)):
+                continue
+            if fn.decorator_list or fn.args.vararg or fn.args.kwarg or fn.args.posonlyargs:
+                continue
+            ys = [n for n in _own_nodes(fn) if isinstance(n, (ast.Yield, ast.YieldFrom))]
+            if not ys or any(isinstance(n, ast.YieldFrom) for n in ys) or any(isinstance(n, (ast.Return, ast.While, ast.Try, ast.With, ast.Lambda) + _FUNC) for n in _own_nodes(fn)):
+                continue
+
+            def tail_ok(stmts) -> bool:
+                for i_, st in enumerate(stmts):
+                    if isinstance(st, ast.Expr) and isinstance(st.value, ast.Yield):
+                        if i_ != len(stmts) - 1 or st.value.value is None:
+                            return False
+                    elif isinstance(st, ast.For):
+                        if st.orelse or not tail_ok(st.body):
+                            return False
+                    elif isinstance(st, ast.If):
+                        if not tail_ok(st.body) or not tail_ok(st.orelse):
+                            return False
+                    elif any(isinstance(x, ast.Yield) for x in ast.walk(st)):
+                        return False
+                return True
+
+            if tail_ok(_helper_body(fn)):
+                gens[fn.name] = (mod, fn)
+    notes: List[str] = []
+    if not gens:
+        return notes
+    n_sites: Dict[str, int] = {}
+    for mod, t in trees.items():
+        for holder in list(ast.walk(t)):
+            for fld in ("body", "orelse", "finalbody"):
+                seq = getattr(holder, fld, None)
+                if not (isinstance(seq, list) and seq and isinstance(seq[0], ast.stmt)):
+                    continue
+                i = 0
+                while i < len(seq):
+                    st = seq[i]
+                    if isinstance(st, ast.For) and not st.orelse and isinstance(st.iter, ast.Call) and not st.iter.keywords:
+                        f = st.iter.func
+                        nm = f.id if isinstance(f, ast.Name) else (f.attr if isinstance(f, ast.Attribute) and isinstance(f.value, ast.Name) else None)
+                        if nm in gens and gens[nm][1] is not holder:
+                            home, g = gens[nm]
+                            leaves = [x for s_ in st.body for x in ast.walk(s_) if isinstance(x, (ast.Break, ast.Return, ast.Yield, ast.YieldFrom))]
+                            own_breaks = [x for x in leaves if not isinstance(x, ast.Break) or not any(isinstance(a, (ast.For, ast.While)) and any(y is x for y in ast.walk(a)) for s_ in st.body for a in ast.walk(s_))]
+                            binding = _bind(g, st.iter, False)
+                            if binding is not None and not own_breaks and all(_simple_arg(v) for v in binding.values()) and not (_stored_names(g) & set(binding)):
+                                suffix = "__g%d" % (sum(map(ord, g.name)) % 97)
+                                rename = {s_: s_ + suffix for s_ in _stored_names(g)}
+                                sub = _Subst(dict(binding), rename)
+                                body = [sub.visit(copy.deepcopy(x)) for x in _helper_body(g)]
+
+                                def put(stmts):
+                                    out_ = []
+                                    for x in stmts:
+                                        if isinstance(x, ast.Expr) and isinstance(x.value, ast.Yield):
+                                            asg = ast.Assign(targets=[copy.deepcopy(st.target)], value=x.value.value, lineno=st.lineno)
+                                            out_.append(asg)
+                                            out_.extend(copy.deepcopy(st.body))
+                                        elif isinstance(x, ast.For):
+                                            x.body = put(x.body)
+                                            out_.append(x)
+                                        elif isinstance(x, ast.If):
+                                            x.body = put(x.body)
+                                            x.orelse = put(x.orelse)
+                                            out_.append(x)
+                                        elif isinstance(x, ast.AnnAssign) and x.value is None:
+                                            continue
+                                        else:
+                                            out_.append(x)
+                                    return out_
+
+                                new = put(body)
+                                for x in new:
+                                    ast.copy_location(x, st)
+                                    ast.fix_missing_locations(x)
+                                seq[i:i + 1] = new
+                                n_sites[nm] = n_sites.get(nm, 0) + 1
+                                i += len(new)
+                                continue
+                    i += 1
+    for nm, k in sorted(n_sites.items()):
+        home, g = gens[nm]
+        refs = sum(1 for t2 in trees.values() for x in ast.walk(t2) if (isinstance(x, ast.Name) and x.id == nm) or (isinstance(x, ast.Attribute) and x.attr == nm) or (isinstance(x, ast.alias) and x.name == nm))
+        if refs == 0:
+            trees[home].body.remove(g)
+        notes.append(f"{home}: generator helper {nm} -> {k} loop(s) read as its body{', dissolved' if refs == 0 else ''}")
+    return notes
 
 
 def _baseline_defs() -> Set[str]:
